@@ -24,6 +24,11 @@
 
 #include <iostream>
 
+#ifdef PHOTOSPLINE_VERIF
+//verification hook: lets an external conformance harness inspect private state
+struct photospline_verif_access;
+#endif
+
 namespace photospline{
 	
 #ifdef PHOTOSPLINE_INCLUDES_SPGLAM
@@ -122,6 +127,9 @@ namespace detail{
 	
 template<typename Alloc = std::allocator<void> >
 class splinetable{
+#ifdef PHOTOSPLINE_VERIF
+	friend struct ::photospline_verif_access;
+#endif
 public:
 	typedef Alloc allocator_type;
 	typedef std::allocator_traits<allocator_type> allocator_traits;
@@ -482,6 +490,9 @@ public:
 		double (splinetable::*eval_ptr)(const int*, int, detail::buffer2d<Float>) const;
 		void (splinetable::*v_eval_ptr)(const int*, const typename detail::simd_vector<Float>::type***, typename detail::simd_vector<Float>::type*) const;
 		friend class splinetable<Alloc>;
+#ifdef PHOTOSPLINE_VERIF
+		friend struct ::photospline_verif_access;
+#endif
 		evaluator_type(const splinetable<Alloc>& table):table(table){}
 	public:
 		///\brief Get the underlying splinetable
